@@ -71,6 +71,10 @@ type Frame struct {
 	Fields    []Field
 	Blocks    []Block
 	Selectors []Selector
+	// QuickBytesOnly: the byte-set class uses {0x00,0xFF,^b} in the thorough tier too (frames in which most byte
+	// values of a count field would make an unfixed decoder allocate GiBs per case)
+	QuickBytesOnly bool
+	Counts         []Field // 4-byte fields that announce a NUMBER OF ELEMENTS (map size, vector / list length); not necessarily in Fields
 }
 
 func getBE(b []byte, off, w int) uint64 {
@@ -147,7 +151,7 @@ func Mutations(target string, f Frame, yield func(Case) bool) bool {
 	for i := 0; i < L; i++ {
 		o := f.Bytes[i]
 		vals := []byte{0x00, 0xFF, ^o}
-		if vreport.Thorough() {
+		if vreport.Thorough() && !f.QuickBytesOnly {
 			// thorough tier: every byte position over ALL 256 values
 			vals = vals[:0]
 			for v := 0; v < 256; v++ {
@@ -303,6 +307,28 @@ func SelectorMutations(target string, f Frame, yield func(Case) bool) bool {
 						return false
 					}
 				}
+			}
+		}
+	}
+	return true
+}
+
+// CountValues are the announced element counts of the class announced-count: far more than any input of
+// the alphabet can hold, small enough that a decoder which iterates (or allocates) the announced count
+// costs a bounded price (2^24 iterations = 0.4 s, 16 MiB) - the cost and allocation oracles then have a
+// verdict with a wide margin. Descending, so that the first (recorded) failing case is the clearest one.
+var CountValues = []uint64{1 << 24, 1 << 22, 1 << 20}
+
+// CountMutations yields, for every count field of the frame, the frame with that field set to every
+// value of CountValues (class announced-count).
+func CountMutations(target string, f Frame, yield func(Case) bool) bool {
+	for _, fd := range f.Counts {
+		tv := getBE(f.Bytes, fd.Off, fd.Width)
+		for _, v := range CountValues {
+			b := append([]byte(nil), f.Bytes...)
+			putBE(b, fd.Off, fd.Width, v)
+			if !yield(Case{Target: target, Frame: f.Name, Class: "announced-count", Desc: fmt.Sprintf("%s@%d/%d: %d -> %d", fd.Name, fd.Off, fd.Width, tv, v), Hex: hex.EncodeToString(b)}) {
+				return false
 			}
 		}
 	}
